@@ -535,24 +535,26 @@ def s6(ctx, R):
             ctx.notice("S6", "%s: not followed (a written value is not constant)" % what)
             undecided += 1
             continue
-        text = "".join(x[1].v if x[0] == "write" else "\x01%s\x02" % x[1].v for x in evs)  # \x01..\x02: handed to the line printer
-        tail = text.split("\x02", 1)[1] if "\x02" in text else text
-        if slotdef:
-            tail = tail.split("<T1>", 1)[1] if "<T1>" in tail else tail
+        # everything that comes out, written directly or handed to the line printer, blanks and line ends aside (their places are
+        # rule S3's business)
+        text = "".join(x[1].v for x in evs)
+        flat = "".join(text.split())
+        head = "cmd" + ("<T1>" if slotdef else "")
+        tail = flat[len(head):] if flat.startswith(head) else flat
         if want[0] == "block":
-            ok_ = tail.replace(" ", "").replace("\n", "") == "{" + "".join(want[1]) + "\x01}\x02"
+            ok_ = flat == head + "{" + "".join(want[1]) + "}"
             shown = "` {`, %s, `}`" % ", ".join(want[1]) if want[1] else "` {`, `}`"
         elif want[0] == "semicolon":
-            ok_ = tail.strip(" ") == ";\n"
-            shown = "`;` and a newline"
+            ok_ = flat == head + ";"
+            shown = "`;`"
         else:
-            ok_ = tail == ""
+            ok_ = flat == head
             shown = "nothing"
         if ok_:
             ctx.holds("S6", "%s ends with %s" % (what, shown))
         else:
             ctx.violation("S6", f, "command-end:%s" % what, "tosieve, %s: after the name%s it writes %r; expected %s" % (
-                what, " and the argument" if slotdef else "", tail.replace("\x01", "<line:").replace("\x02", ">"), shown), node=f.node,
+                what, " and the argument" if slotdef else "", tail, shown), node=f.node,
                 witness="`if true { keep; } else { stop; }` is written without the else block (or without its terminator): the output is "
                         "rejected or means something else")
     ctx.need("S6", "slot form x value shape scenarios", n - undecided, 12)
